@@ -9,6 +9,7 @@ CONSTANTS
   MaxFaults = 0
   AllowStop = TRUE
   AllowCancel = FALSE
+  AllowHalf = FALSE
   Reconnect = TRUE
   MaxAttempts = 1
   FixExitOrder = FALSE
